@@ -55,6 +55,8 @@ fn decode_connect_packet(src: &mut Bytes) -> Result<Packet, DecodeError> {
 
     let flags =
         ConnectFlags::from_bits(src.get_u8()).ok_or(DecodeError::ConnectReservedFlagSet)?;
+    // will qos value 3 is malformed even if will flag is not set [MQTT-3.1.2-14]
+    QoS::try_from((flags & ConnectFlags::WILL_QOS).bits() >> WILL_QOS_SHIFT)?;
 
     let keep_alive = u16::decode(src)?;
     let client_id = ByteString::decode(src)?;
